@@ -234,6 +234,23 @@ def _call(name, m, **kw):
     return getattr(ta, name)(m, sequential=True, **kw)
 
 
+def _single(ctx, name, m, ref_last, label, info, field=None, **kw):
+    """the single (sequential=False) value against the last entry of the reference series"""
+    import jesse.indicators as ta
+    v = getattr(ta, name)(m, sequential=False, **kw)
+    if field is not None:
+        v = getattr(v, field)
+    inf = dict(info, single=True, field=field)
+    if isinstance(ref_last, tuple):
+        return  # references given through an identity (sqrt, rsi, willr) are compared on the series only
+    ok, cond = indh.same_value(ctx, v, ref_last)
+    if not ok:
+        ctx.prove(False, label, dict(inf, kind='nan-pattern'))
+    elif cond is not True:
+        ctx.prove(near(v, ref_last), label, inf)
+    ctx.event('single-value-compared')
+
+
 # ---- harnesses ---------------------------------------------------------------------------------------------------------------
 
 
@@ -244,10 +261,13 @@ def h_ref(ctx, name='sma', n=7, period=3, source_type='close'):
     lab = 'C15:equals-textbook-definition'
     if name == 'sma':
         cmp_series(ctx, _call('sma', m, period=period, source_type=source_type), ref_sma(x, period), lab, info)
+        _single(ctx, 'sma', m, ref_sma(x, period)[-1], lab, info, period=period, source_type=source_type)
     elif name == 'ema':
         cmp_series(ctx, _call('ema', m, period=period, source_type=source_type), ref_ema(x, period), lab, info)
+        _single(ctx, 'ema', m, ref_ema(x, period)[-1], lab, info, period=period, source_type=source_type)
     elif name == 'wma':
         cmp_series(ctx, _call('wma', m, period=period, source_type=source_type), ref_wma(x, period), lab, info)
+        _single(ctx, 'wma', m, ref_wma(x, period)[-1], lab, info, period=period, source_type=source_type)
     elif name == 'stddev':
         cmp_series(ctx, _call('stddev', m, period=period, source_type=source_type), ref_stddev(x, period), lab, info)
     elif name == 'var':
@@ -256,8 +276,10 @@ def h_ref(ctx, name='sma', n=7, period=3, source_type='close'):
         cmp_series(ctx, _call('rsi', m, period=period, source_type=source_type), ref_rsi(x, period), lab, info)
     elif name == 'roc':
         cmp_series(ctx, _call('roc', m, period=period, source_type=source_type), ref_roc(x, period), lab, info)
+        _single(ctx, 'roc', m, ref_roc(x, period)[-1], lab, info, period=period, source_type=source_type)
     elif name == 'mom':
         cmp_series(ctx, _call('mom', m, period=period, source_type=source_type), ref_mom(x, period), lab, info)
+        _single(ctx, 'mom', m, ref_mom(x, period)[-1], lab, info, period=period, source_type=source_type)
     elif name == 'willr':
         cmp_series(ctx, _call('willr', m, period=period), ref_willr(rows, period), lab, info)
     elif name == 'obv':
@@ -282,6 +304,9 @@ def h_ref(ctx, name='sma', n=7, period=3, source_type='close'):
         cmp_series(ctx, r.upperband, up, lab, dict(info, field='upperband'))
         cmp_series(ctx, r.lowerband, lo, lab, dict(info, field='lowerband'))
         cmp_series(ctx, r.middleband, [NAN if indh.is_nan(a) else (a + b) / 2 for a, b in zip(up, lo)], lab, dict(info, field='middleband'))
+        _single(ctx, 'donchian', m, up[-1], lab, info, field='upperband', period=period)
+        _single(ctx, 'donchian', m, lo[-1], lab, info, field='lowerband', period=period)
+        _single(ctx, 'donchian', m, NAN if indh.is_nan(up[-1]) else (up[-1] + lo[-1]) / 2, lab, info, field='middleband', period=period)
     elif name == 'macd':
         fast, slow, sig = period, period + 1, 2
         r = _call('macd', m, fast_period=fast, slow_period=slow, signal_period=sig, source_type=source_type)
